@@ -134,6 +134,9 @@ func runC05(c *harness.Ctx) {
 	}
 	c.Info["op"], c.Info["at_frame"], c.Info["frames"] = op, j, k
 	c.Feature("op-" + op)
+	if op != "none" {
+		c.S.Count("fault.tamper-"+op, 1)
+	}
 	intact := 0 // payload bytes of the frames that precede the damage
 	for i := 0; i < j; i++ {
 		intact += frames[i].payload
